@@ -220,9 +220,15 @@ def ratioOp (args : List String) : Option OpEval := do
           if k == 0 && rate ≤ 0.0 then (if outcomeClass a == "NonPositiveValue" then [] else ["zero-rate-accepted"])
           else oracleWilson conf n k z a
         | none, [a] =>
-          if rate.isNaN then [] else
           if rate ≤ 0.0 then (if outcomeClass a == "NonPositiveValue" then [] else ["non-positive-rate-accepted"])
-          else []
+          else
+            -- the count the rate implies: round(rate·n) as a saturating conversion (NaN ↦ 0)
+            let x := rate * Float.ofNat n
+            let k : Nat := if x.isNaN then 0 else if x ≥ 1.8446744073709552e19 then 18446744073709551615
+                           else x.round.toUInt64.toNat
+            let dom := wilsonDomain n k
+            if dom != "ok" then (if outcomeClass a == dom then [] else [s!"ratio-domain:{outcomeClass a}≠{dom}(implied count {k})"])
+            else []
         | _, _ => ["malformed"]
       { model := o, prop := cs } }
 
